@@ -265,6 +265,30 @@ pub fn run(ctx: &Ctx) -> Report {
         };
         let col = Column { table: "t".into(), column: "c".into(), coltype: ct, colflags: if unsigned { ColumnFlags::UNSIGNED_FLAG } else { ColumnFlags::empty() } };
         let ops = vec![QOp::Start(0), QOp::Col(Cell::val(cell.clone())), QOp::EndRow, QOp::Finish];
+        // a third of the sample travels in the text protocol: the client parses the digits
+        if i % 3 == 2 {
+            let scripts = vec![Script::Q(QProg { colsets: vec![vec![col.clone()]], ops, on_err: OnErr::Forget })];
+            let obs = run_case(&varied_case(rng, vec![Cmd::query(b"q")], scripts));
+            rep.evaluations += 1;
+            if harness_panic(&obs, rep) {
+                return;
+            }
+            let d = || J::obj().set("value", format!("{:?}", cell)).set("column", format!("{}/{} (text protocol)", cname, if unsigned { "unsigned" } else { "signed" })).set("outcome", obs.outcome.describe());
+            if let Ok((_, _, dec)) = decode_output(&obs) {
+                if let Some(crate::wire::Resp::Parts(parts)) = dec.resps.get(2) {
+                    if let Some(crate::wire::Part::Rows { rows, .. }) = parts.first() {
+                        if let Some(Ok(cells)) = rows.first().map(|r| wire::decode_text_row(r, 1)) {
+                            rep.counters.inc("text_rows_compared");
+                            let got = cells[0].as_ref().and_then(|b| std::str::from_utf8(b).ok()).and_then(|t| t.parse::<i128>().ok());
+                            if got != Some(v) {
+                                rep.violations.push(viol("C15", format!("C15 altered-in-text-row col={}/{}", cname, if unsigned { "unsigned" } else { "signed" }), format!("{:?} written to a {} column in the text protocol arrives as {:?}", cell, cname, cells[0].as_ref().map(|b| show(b))), d()));
+                            }
+                        }
+                    }
+                }
+            }
+            return;
+        }
         let cmds = vec![Cmd::prepare(b"p"), Cmd::execute(1, &[], false)];
         let scripts = vec![Script::PrepOk { id: 1, params: vec![], cols: vec![col.clone()] }, Script::Q(QProg { colsets: vec![vec![col.clone()]], ops, on_err: OnErr::Forget })];
         let obs = run_case(&varied_case(rng, cmds, scripts));
